@@ -1,41 +1,183 @@
 (* Props/C03.v — sparse element-wise arithmetic, logic and comparison match dense semantics.
-   Only statements, `exact`, Print Assumptions.  V is any value type with a decidable zero. *)
+   Only statements, `exact`, Print Assumptions.  V is ANY value type with a decidable zero; the operations are
+   section variables constrained only by the laws each theorem needs (identity of +, annihilation of *, ...), so the
+   statements hold for Z, Qc, R, floats-as-a-set...  Operands are arbitrary well-formed coordinate lists: NO hypothesis
+   on the stored order.  den_sp = value at a subscript (implicit zeros included), wf_sp = C06 well-formedness. *)
 From Coq Require Import List Arith Bool ZArith.
-From PV Require Import Base.Index Np.Array Model.Sparse Model.Harness Model.C03Ops Proofs.C03Lemmas Proofs.C03Proofs.
+From PV Require Import Base.Index Np.Array Model.Sparse Model.Harness Model.C03Ops Model.C03AsIs
+                       Proofs.C03Lemmas Proofs.C03Proofs Proofs.C03AsIsProofs.
 Import ListNotations.
 
 Section C03.
 Context {V : Type} (v0 : V) (isz : V -> bool).
 Hypothesis isz_spec : forall v, isz v = true <-> v = v0.
+Notation den := (den_sp v0).
+Notation wf := (wf_sp isz).
+Notation nz x := (negb (isz x)).
 
-(* -S : same shape, well-formed, value at every position = opposite of the operand's value *)
+(* ---- unary ---- *)
 Theorem C03_neg : forall (vopp : V -> V), (forall v, v <> v0 -> vopp v <> v0) -> vopp v0 = v0 ->
-  forall A : sparse V, wf_sp isz A ->
-  wf_sp isz (impl_neg vopp A) /\ sshape (impl_neg vopp A) = sshape A /\
-  forall i, den_sp v0 (impl_neg vopp A) i = vopp (den_sp v0 A i).
+  forall A : sparse V, wf A ->
+  wf (impl_neg vopp A) /\ sshape (impl_neg vopp A) = sshape A /\ forall i, den (impl_neg vopp A) i = vopp (den A i).
 Proof. exact (impl_neg_correct v0 isz isz_spec). Qed.
 
-(* S.ones() : 1 exactly at the nonzero positions *)
-Theorem C03_ones : forall (one : V) (A : sparse V), one <> v0 -> wf_sp isz A ->
-  wf_sp isz (impl_ones one A) /\ sshape (impl_ones one A) = sshape A /\
-  forall i, den_sp v0 (impl_ones one A) i = bval v0 one (negb (isz (den_sp v0 A i))).
+Theorem C03_ones : forall (one : V) (A : sparse V), one <> v0 -> wf A ->
+  wf (impl_ones one A) /\ sshape (impl_ones one A) = sshape A /\
+  forall i, den (impl_ones one A) i = bval v0 one (nz (den A i)).
 Proof. exact (impl_ones_correct v0 isz isz_spec). Qed.
 
-(* S.logical_not() : 1 exactly at the implicit-zero positions of the shape *)
-Theorem C03_not : forall (one : V) (A : sparse V), one <> v0 -> wf_sp isz A ->
-  wf_sp isz (impl_not one A) /\ sshape (impl_not one A) = sshape A /\
-  forall i, inb (sshape A) i = true -> den_sp v0 (impl_not one A) i = bval v0 one (isz (den_sp v0 A i)).
+Theorem C03_not : forall (one : V) (A : sparse V), one <> v0 -> wf A ->
+  wf (impl_not one A) /\ sshape (impl_not one A) = sshape A /\
+  forall i, inb (sshape A) i = true -> den (impl_not one A) i = bval v0 one (isz (den A i)).
 Proof. exact (impl_not_correct v0 isz isz_spec). Qed.
+
+Theorem C03_elemfun : forall (g : V -> V) (A : sparse V), wf A ->
+  wf (impl_elemfun isz g A) /\ sshape (impl_elemfun isz g A) = sshape A /\
+  forall i, den (impl_elemfun isz g A) i = if isz (den A i) then v0 else g (den A i).
+Proof. exact (impl_elemfun_correct v0 isz isz_spec). Qed.
+
+(* ---- the aggregating constructor all sparse (+ - and or xor) go through ---- *)
+Theorem C03_from_aggregator : forall (func : list V -> V) s subs vals,
+  (forall i, In i subs -> inb s i = true) ->
+  wf (from_aggregator isz func s subs vals) /\ sshape (from_aggregator isz func s subs vals) = s /\
+  forall i, den (from_aggregator isz func s subs vals) i =
+            if mem i subs then func (collect i (combine subs vals)) else v0.
+Proof. exact (from_aggregator_correct v0 isz isz_spec). Qed.
+
+(* ---- + and - (sparse, sparse) ---- *)
+Theorem C03_add_sparse : forall (vadd : V -> V -> V), (forall x, vadd v0 x = x) -> (forall x, vadd x v0 = x) ->
+  forall A B : sparse V, wf A -> wf B -> sshape B = sshape A ->
+  wf (impl_add v0 isz vadd A B) /\ sshape (impl_add v0 isz vadd A B) = sshape A /\
+  forall i, den (impl_add v0 isz vadd A B) i = vadd (den A i) (den B i).
+Proof. exact (impl_add_correct v0 isz isz_spec). Qed.
+
+Theorem C03_sub_sparse : forall (vadd : V -> V -> V) (vopp : V -> V),
+  (forall x, vadd v0 x = x) -> (forall x, vadd x v0 = x) -> (forall v, v <> v0 -> vopp v <> v0) -> vopp v0 = v0 ->
+  forall A B : sparse V, wf A -> wf B -> sshape B = sshape A ->
+  wf (impl_sub v0 isz vadd vopp A B) /\ sshape (impl_sub v0 isz vadd vopp A B) = sshape A /\
+  forall i, den (impl_sub v0 isz vadd vopp A B) i = vadd (den A i) (vopp (den B i)).
+Proof. exact (impl_sub_correct v0 isz isz_spec). Qed.
+
+(* ---- * (scalar, dense, sparse) ---- *)
+Theorem C03_mul_scalar : forall (vmul : V -> V -> V), (forall x, vmul v0 x = v0) -> (forall x, vmul x v0 = v0) ->
+  forall (A : sparse V) (c : V), wf A ->
+  wf (impl_mul_scalar isz vmul A c) /\ sshape (impl_mul_scalar isz vmul A c) = sshape A /\
+  forall i, den (impl_mul_scalar isz vmul A c) i = vmul (den A i) c.
+Proof. intros vmul H1 _. exact (impl_mul_scalar_correct v0 isz isz_spec vmul H1). Qed.
+
+Theorem C03_mul_dense : forall (vmul : V -> V -> V), (forall x, vmul v0 x = v0) -> (forall x, vmul x v0 = v0) ->
+  forall (A : sparse V) (T : dense V), wf A ->
+  wf (impl_mul_dense v0 isz vmul A T) /\ sshape (impl_mul_dense v0 isz vmul A T) = sshape A /\
+  forall i, den (impl_mul_dense v0 isz vmul A T) i = vmul (den A i) (den_dense v0 T i).
+Proof. intros vmul H1 _. exact (impl_mul_dense_correct v0 isz isz_spec vmul H1). Qed.
+
+Theorem C03_mul_sparse : forall (vmul : V -> V -> V), (forall x, vmul v0 x = v0) -> (forall x, vmul x v0 = v0) ->
+  forall A B : sparse V, wf A -> wf B -> sshape B = sshape A ->
+  wf (impl_mul v0 isz vmul A B) /\ sshape (impl_mul v0 isz vmul A B) = sshape A /\
+  forall i, den (impl_mul v0 isz vmul A B) i = vmul (den A i) (den B i).
+Proof. exact (impl_mul_correct v0 isz isz_spec). Qed.
+
+(* ---- logical and / or / xor ---- *)
+Theorem C03_and_sparse : forall (one : V), one <> v0 -> forall A B : sparse V, wf A -> wf B -> sshape B = sshape A ->
+  wf (impl_and v0 isz one A B) /\ sshape (impl_and v0 isz one A B) = sshape A /\
+  forall i, den (impl_and v0 isz one A B) i = bval v0 one (nz (den A i) && nz (den B i)).
+Proof. intros one _. exact (impl_and_correct v0 isz isz_spec one). Qed.
+
+Theorem C03_or_sparse : forall (one : V), one <> v0 -> forall A B : sparse V, wf A -> wf B -> sshape B = sshape A ->
+  wf (impl_or v0 isz one A B) /\ sshape (impl_or v0 isz one A B) = sshape A /\
+  forall i, den (impl_or v0 isz one A B) i = bval v0 one (nz (den A i) || nz (den B i)).
+Proof. intros one _. exact (impl_or_correct v0 isz isz_spec one). Qed.
+
+Theorem C03_xor_sparse : forall (one : V), one <> v0 -> forall A B : sparse V, wf A -> wf B -> sshape B = sshape A ->
+  wf (impl_xor v0 isz one A B) /\ sshape (impl_xor v0 isz one A B) = sshape A /\
+  forall i, den (impl_xor v0 isz one A B) i = bval v0 one (xorb (nz (den A i)) (nz (den B i))).
+Proof. intros one _. exact (impl_xor_correct v0 isz isz_spec one). Qed.
+
+Theorem C03_and_scalar : forall (one : V), one <> v0 -> forall (A : sparse V) (c : V), wf A ->
+  wf (impl_and_scalar isz one A c) /\ sshape (impl_and_scalar isz one A c) = sshape A /\
+  forall i, den (impl_and_scalar isz one A c) i = bval v0 one (nz (den A i) && nz c).
+Proof. exact (impl_and_scalar_correct v0 isz isz_spec). Qed.
+
+(* ---- comparisons: ANY decidable relation cmp (so == != < <= > >= are all instances); a comparison that holds
+        for zero marks every implicit-zero position of the shape ---- *)
+Theorem C03_cmp_scalar : forall (one : V), one <> v0 -> forall (cmp : V -> V -> bool) (A : sparse V) (c : V), wf A ->
+  wf (impl_cmp_scalar v0 one cmp A c) /\ sshape (impl_cmp_scalar v0 one cmp A c) = sshape A /\
+  forall i, inb (sshape A) i = true -> den (impl_cmp_scalar v0 one cmp A c) i = bval v0 one (cmp (den A i) c).
+Proof. exact (impl_cmp_scalar_correct v0 isz isz_spec). Qed.
+
+Theorem C03_cmp_sparse : forall (one : V), one <> v0 -> forall (cmp : V -> V -> bool) (A B : sparse V),
+  wf A -> wf B -> sshape B = sshape A ->
+  wf (impl_cmp v0 one cmp A B) /\ sshape (impl_cmp v0 one cmp A B) = sshape A /\
+  forall i, inb (sshape A) i = true -> den (impl_cmp v0 one cmp A B) i = bval v0 one (cmp (den A i) (den B i)).
+Proof. exact (impl_cmp_correct v0 isz isz_spec). Qed.
+
+Theorem C03_cmp_dense : forall (one : V), one <> v0 -> forall (cmp : V -> V -> bool) (A : sparse V) (T : dense V), wf A ->
+  wf (impl_cmp_dense v0 one cmp A T) /\ sshape (impl_cmp_dense v0 one cmp A T) = sshape A /\
+  forall i, inb (sshape A) i = true ->
+            den (impl_cmp_dense v0 one cmp A T) i = bval v0 one (cmp (den A i) (den_dense v0 T i)).
+Proof. exact (impl_cmp_dense_correct v0 isz isz_spec). Qed.
+
+(* ---- operators answered with a dense tensor (sparse + - or xor / with scalar or dense, scalar / sparse): for ANY
+        element function f into ANY result type W (so IEEE division into xval is an instance) ---- *)
+Theorem C03_dense_result_scalar : forall (W : Type) (w0 : W) (f : V -> V -> W) (A : sparse V) (c : V), wf_struct A ->
+  wf_dense (impl_dense_scalar v0 f A c) /\ dshape (impl_dense_scalar v0 f A c) = sshape A /\
+  forall i, inb (sshape A) i = true -> den_dense w0 (impl_dense_scalar v0 f A c) i = f (den A i) c.
+Proof. intros W. exact (@impl_dense_scalar_correct V v0 W). Qed.
+
+Theorem C03_dense_result_dense : forall (W : Type) (w0 : W) (f : V -> V -> W) (A : sparse V) (T : dense V),
+  wf_struct A -> wf_dense T -> dshape T = sshape A ->
+  wf_dense (impl_dense_dense v0 f A T) /\ dshape (impl_dense_dense v0 f A T) = sshape A /\
+  forall i, inb (sshape A) i = true -> den_dense w0 (impl_dense_dense v0 f A T) i = f (den A i) (den_dense v0 T i).
+Proof. intros W. exact (@impl_dense_dense_correct V v0 W). Qed.
 End C03.
+
+(* finding A-06: the code as it is (position pairing over the GENERATED tt_intersect_rows) is refuted *)
+Theorem C03_mul_sparse_asis_refuted : ~ mul_asis_stmt.
+Proof. exact mul_asis_refuted. Qed.
 
 Print Assumptions C03_neg.
 Print Assumptions C03_ones.
 Print Assumptions C03_not.
+Print Assumptions C03_elemfun.
+Print Assumptions C03_from_aggregator.
+Print Assumptions C03_add_sparse.
+Print Assumptions C03_sub_sparse.
+Print Assumptions C03_mul_scalar.
+Print Assumptions C03_mul_dense.
+Print Assumptions C03_mul_sparse.
+Print Assumptions C03_and_sparse.
+Print Assumptions C03_or_sparse.
+Print Assumptions C03_xor_sparse.
+Print Assumptions C03_and_scalar.
+Print Assumptions C03_cmp_scalar.
+Print Assumptions C03_cmp_sparse.
+Print Assumptions C03_cmp_dense.
+Print Assumptions C03_dense_result_scalar.
+Print Assumptions C03_dense_result_dense.
+Print Assumptions C03_mul_sparse_asis_refuted.
 
-(* non-vacuity: a 2x3 operand stored out of order *)
+(* non-vacuity on concrete, non-symmetric 2x3 operands stored in different (unsorted) orders *)
+Local Open Scope Z_scope.
+Definition exA : sparse Z := mkSp [2; 3]%nat [[1; 2]; [0; 1]; [1; 0]]%nat [9; -7; 5].
+Definition exB : sparse Z := mkSp [2; 3]%nat [[1; 0]; [0; 0]; [1; 2]]%nat [5; 4; -2].
+Example C03_example_wf : wf_spb zisz exA = true /\ wf_spb zisz exB = true.
+Proof. split; reflexivity. Qed.
 Example C03_example_unary :
-  let A := mkSp [2; 3] [[1; 2]; [0; 1]; [1; 0]] [9; -7; 5]%Z in
-  wf_spb zisz A = true /\
-  full 0%Z (impl_neg Z.opp A) = mkDense [2; 3] [0; -5; 7; 0; 0; -9]%Z /\
-  full 0%Z (impl_not 1%Z A) = mkDense [2; 3] [1; 0; 0; 1; 1; 0]%Z.
+  full 0 (impl_neg Z.opp exA) = mkDense [2; 3]%nat [0; -5; 7; 0; 0; -9] /\
+  full 0 (impl_not 1 exA) = mkDense [2; 3]%nat [1; 0; 0; 1; 1; 0] /\
+  full 0 (impl_elemfun zisz (fun v => v - 5) exA) = mkDense [2; 3]%nat [0; 0; -12; 0; 0; 4].
+Proof. repeat split; reflexivity. Qed.
+Example C03_example_arith :
+  full 0 (impl_add 0 zisz Z.add exA exB) = mkDense [2; 3]%nat [4; 10; -7; 0; 0; 7] /\
+  full 0 (impl_sub 0 zisz Z.add Z.opp exA exB) = mkDense [2; 3]%nat [-4; 0; -7; 0; 0; 11] /\
+  full 0 (impl_mul 0 zisz Z.mul exA exB) = mkDense [2; 3]%nat [0; 25; 0; 0; 0; -18] /\
+  full 0 (impl_mul_scalar zisz Z.mul exA 0) = mkDense [2; 3]%nat [0; 0; 0; 0; 0; 0] /\
+  nnz (impl_mul_scalar zisz Z.mul exA 0) = 0%nat.
+Proof. repeat split; reflexivity. Qed.
+Example C03_example_logic_cmp :
+  full 0 (impl_and 0 zisz 1 exA exB) = mkDense [2; 3]%nat [0; 1; 0; 0; 0; 1] /\
+  full 0 (impl_xor 0 zisz 1 exA exB) = mkDense [2; 3]%nat [1; 0; 1; 0; 0; 0] /\
+  full 0 (impl_cmp 0 1 Z.leb exA exB) = mkDense [2; 3]%nat [1; 1; 1; 1; 1; 0] /\
+  full 0 (impl_cmp 0 1 Z.eqb exA exB) = mkDense [2; 3]%nat [0; 1; 0; 1; 1; 0] /\
+  full 0 (impl_cmp_scalar 0 1 Z.gtb exA (-1)) = mkDense [2; 3]%nat [1; 1; 0; 1; 1; 1].
 Proof. repeat split; reflexivity. Qed.
